@@ -102,6 +102,20 @@ def _named_constant(name_node):
     return None
 
 
+def _attribute_constant(node):
+  """self.X / cls.X / Class.X / module.X naming a constant table of the code."""
+  from . import tables
+  if not (isinstance(node.value, ast.Name) and getattr(node.value, '_mod', None) is not None):
+    return None
+  try:
+    d = tables.resolve(node)
+    if d is node:
+      return None
+    return _abstract(tables.const_value(d))
+  except AnalysisError:
+    return None
+
+
 _KEY_CACHE = {}
 
 
@@ -201,6 +215,9 @@ class Interp(object):
         r = h(node, st, self)
         if r is not NotImplemented:
           return r
+      v = _attribute_constant(node)
+      if v is not None:
+        return v
       return Sym(norm(node), node)
     if isinstance(node, ast.NamedExpr):
       v = self.value(node.value, st)
